@@ -196,23 +196,22 @@ theorem runSegment_stMS (S : Scheduler σ) (me : Nat) (ms : MaxSteps) :
   | 0, st, p => by rw [runSegment, runSegment]; rfl
   | fuel + 1, st, .pure () => by
     rw [runSegment, runSegment]
-    show (match st.k.panicking with
-      | some (t, msg) => _
-      | none => _) = _
-    cases st.k.panicking with
-    | none => rfl
-    | some x =>
-      obtain ⟨t, msg⟩ := x
-      simp only
-      split <;> rfl
+    have hp : (stMS ms st).k.panicking = st.k.panicking := rfl
+    have ha : (stMS ms st).k.alsoPanicking = st.k.alsoPanicking := rfl
+    rw [hp, ha]
+    repeat' split
+    all_goals rfl
   | fuel + 1, st, .panic msg => by
     rw [runSegment, runSegment]
-    show (match st.k.panicking with
-      | some _ => _
-      | none => _) = _
-    cases st.k.panicking with
-    | none => exact runSegment_stMS S me ms fuel { st with k := { st.k with panicking := some (me, msg) } } _
-    | some x => rfl
+    have hp : (stMS ms st).k.panicking = st.k.panicking := rfl
+    have ha : (stMS ms st).k.alsoPanicking = st.k.alsoPanicking := rfl
+    rw [hp, ha]
+    split
+    · split
+      · rfl
+      · exact runSegment_stMS S me ms fuel
+          { st with k := { st.k with alsoPanicking := st.k.alsoPanicking ++ [(me, msg)] } } _
+    · exact runSegment_stMS S me ms fuel { st with k := { st.k with panicking := some (me, msg) } } _
   | fuel + 1, st, .op o kont =>
     runSegment_op_stMS S me fuel ms (runSegment_stMS S me ms fuel) st o kont
 
@@ -292,7 +291,7 @@ theorem schedule_withMS (S : Scheduler σ) (ms : MaxSteps) (k : Kernel) (s : σ)
 /-! ### one iteration, whole runs -/
 
 theorem advance_withMS (ms : MaxSteps) (k : Kernel) : (withMS ms k).advance = withMS ms k.advance := by
-  obtain ⟨tasks, current, next, hy, cs, ra, sr, seed, ms', pk⟩ := k
+  obtain ⟨tasks, current, next, hy, cs, ra, sr, seed, ms', pk, apk⟩ := k
   cases next <;> rfl
 
 theorem afterSched_stMS (ms : MaxSteps) (st : ExecState P σ) (k : Kernel) (s : σ) (ev : Option Ev) :
